@@ -1,6 +1,8 @@
 (* C14 - runtime property: statements over the transition-system models (Mux/Pipe.v, Mux/Accept.v); see also the sibling files. *)
 From Coq Require Import List NArith ZArith Bool Arith.
 From SA Require Import Base.Tok Gen.Shapes Mux.Lts Mux.Pipe Mux.Accept Mux.Runtime Mux.Runtime_proofs Mux.Accept_proofs.
+From SA Require Gen.Shapes2.
+From Coq Require Import String.
 Import ListNotations.
 Local Open Scope nat_scope.
 
@@ -27,3 +29,10 @@ Proof. exact dead_session_exits. Qed.
 Theorem c14_accept_spins_refuted : forall spawns s n, lp s = LWaiting -> dead s = true ->
   lp (iter_loop spawns true n s) = LWaiting /\ iter_loop spawns true n s = s.
 Proof. exact dead_session_spins_refuted. Qed.
+
+(* Whichever copy loop reports first, PipeData closes the OTHER side unconditionally (the model's Pipe.v closes the peer of the side
+   that ended): the side named here is the one closed first in each branch of the select. *)
+Theorem c14_pipe_close_facts :
+  Gen.Shapes2.pipe_on_down_report_closes = "up"%string /\ Gen.Shapes2.pipe_on_up_report_closes = "down"%string.
+Proof. split; reflexivity. Qed.
+Print Assumptions c14_pipe_close_facts.
